@@ -337,7 +337,7 @@ func (this *partition) proposeAndWaitForCommit(ctx context.Context, proposal *pb
 	ctx, cancelCtx := context.WithTimeout(ctx, proposalTimeout)
 	defer cancelCtx()
 
-	notifC, notifId := this.notificator.Create(0)
+	notifC, notifId := this.notificator.Create(1)
 	defer func() { this.notificator.Remove(notifId) }()
 
 	proposal.NotificationId = notifId.Bytes()
